@@ -114,7 +114,7 @@
 (define (bytevector-pad-left bv len)
   (let ((diff (- len (bytevector-length bv))))
     (if (positive? diff)
-        (bytevector-append bv (make-bytevector diff 0))
+        (bytevector-append (make-bytevector diff 0) bv)
         bv)))
 
 ;;> \section{Hex string conversion}
